@@ -608,3 +608,13 @@ CHECKS["C08"]["text"] += (
 CHECKS["C14"]["text"] += (
     " File-type definitions with an explicitly empty feature list never "
     "contribute; a dangling location may also be a directory.")
+CHECKS["C04"]["text"] += (
+    " The root change also edits a [calculation] key; histories 'root "
+    "change, exclusion on some level, refresh' are enumerated for 3 and 4 "
+    "children.")
+CHECKS["C07"]["text"] += (
+    " Chains in which two mapped basins with different maps of equal length "
+    "and equal end points meet in one file are enumerated separately.")
+CHECKS["C13"]["text"] += (
+    " Laser corruptions: a wrong laser count and a counted laser without "
+    "its power key.")
